@@ -263,6 +263,17 @@ class Interp:
             return Flow.NORMAL
         if isinstance(st, ast.Assign):
             v = self.eval(st.value, fr)
+            vn = st.value
+            if isinstance(vn, (ast.Compare, ast.BoolOp)) or (isinstance(vn, ast.UnaryOp) and isinstance(vn.op, ast.Not)) \
+                    or (isinstance(vn, ast.Call) and isinstance(vn.func, ast.Name) and vn.func.id == "isinstance"):
+                # a branch test kept in a temporary (flag = isinstance(x, list) ... if flag:): the configured outcome of the test
+                # is the value of the flag
+                try:
+                    d_ = self.assume(fr.fn, vn, v, fr.module)
+                except TypeError:
+                    d_ = self.assume(fr.fn, vn, v)
+                if isinstance(d_, bool) and not is_pyconst(v):
+                    v = K(d_)
             for t in st.targets:
                 self.assign(t, v, fr, st)
             return Flow.NORMAL
